@@ -71,6 +71,7 @@ type mtopic struct {
 }
 
 type mbroker struct {
+	dirtyUs   int64 // last time a fault made this broker unreachable / misbehave (-1 never)
 	id        int32
 	addr      string
 	up        bool
@@ -100,6 +101,11 @@ type cluster struct {
 	lastFaultUs int64
 	// hooks for scenario oracles
 	onView    func()
+	onDialFail func()
+	onFault    func(kind string)
+	onMetadata func(br *mbroker, c *simConn, corr int32, r *sarama.MetadataRequest, m *sarama.MetadataResponse)
+	onGarbage func(c *simConn, h reqHeader, kind string)
+	onRequest func(c *simConn, h reqHeader, body interface{}, fault *cf.Fault)
 	onAppend  func(p *mpart, b *mbatch, pr *produceReq)
 	onProduce func(br *mbroker, c *simConn, ver int16, frameLen int, pr *produceReq, sets map[string][]wbatch)
 	extra     func(br *mbroker, c *simConn, h reqHeader, body interface{}, fault *cf.Fault) (resp []byte, handled bool, noResponse bool)
@@ -112,7 +118,7 @@ func brokerAddr(id int32) string { return fmt.Sprintf("b%d:9092", id) }
 func newCluster(k *kernel, c *cf.Case) *cluster {
 	cl := &cluster{k: k, brokers: map[int32]*mbroker{}, topics: map[string]*mtopic{}, pidNext: 7000}
 	for _, id := range c.Cluster.Brokers {
-		cl.brokers[id] = &mbroker{id: id, addr: brokerAddr(id), up: true}
+		cl.brokers[id] = &mbroker{id: id, addr: brokerAddr(id), up: true, dirtyUs: -1}
 		cl.order = append(cl.order, id)
 	}
 	cl.controller = c.Cluster.Controller
@@ -143,6 +149,8 @@ func newCluster(k *kernel, c *cf.Case) *cluster {
 }
 
 func (cl *cluster) brokerByAddr(a string) *mbroker {
+	cl.mu.Lock()
+	defer cl.mu.Unlock()
 	for _, id := range cl.order {
 		if cl.brokers[id].addr == a {
 			return cl.brokers[id]
@@ -174,6 +182,9 @@ func (cl *cluster) seedAddrs() []string {
 
 func (cl *cluster) noteFault(kind string) {
 	R.fired(kind)
+	if cl.onFault != nil {
+		cl.onFault(kind)
+	}
 	cl.lastFaultUs = cl.k.nowUs()
 }
 
@@ -212,6 +223,7 @@ func (cl *cluster) timedFault(rs *ruleState) {
 		// reset every connection of a broker (broker stays up)
 		if br := cl.brokers[f.Broker]; br != nil {
 			cl.k.logf("fault conn-reset b%d", br.id)
+			br.dirtyUs = cl.k.nowUs()
 			cl.mu.Lock()
 			conns := append([]*simConn(nil), br.conns...)
 			cl.mu.Unlock()
@@ -219,6 +231,91 @@ func (cl *cluster) timedFault(rs *ruleState) {
 				c.serverClose(false)
 			}
 			cl.noteFault("conn-reset")
+		}
+	case "topic-add":
+		mt := &mtopic{name: f.Topic}
+		for i := 0; i < f.N; i++ {
+			l := cl.order[(i+int(f.To))%len(cl.order)]
+			mp := &mpart{topic: f.Topic, id: int32(i), leader: l, replicas: []int32{l}, isr: []int32{l}, idem: map[int64]*idemState{}, openTxn: map[int64]int64{}, magic: -1}
+			mt.parts = append(mt.parts, mp)
+		}
+		cl.topics[f.Topic] = mt
+		cl.k.logf("view topic-add %s x%d", f.Topic, f.N)
+		cl.bumpView()
+	case "topic-del":
+		delete(cl.topics, f.Topic)
+		cl.k.logf("view topic-del %s", f.Topic)
+		cl.bumpView()
+	case "topic-err":
+		if t := cl.topics[f.Topic]; t != nil {
+			t.err = int16(f.Code)
+			cl.k.logf("view topic-err %s %d", f.Topic, f.Code)
+			cl.bumpView()
+		}
+	case "part-add":
+		if t := cl.topics[f.Topic]; t != nil {
+			id := int32(len(t.parts))
+			for _, p := range t.parts {
+				if p.id >= id {
+					id = p.id + 1
+				}
+			}
+			l := cl.order[int(id)%len(cl.order)]
+			t.parts = append(t.parts, &mpart{topic: f.Topic, id: id, leader: l, replicas: []int32{l}, isr: []int32{l}, idem: map[int64]*idemState{}, openTxn: map[int64]int64{}, magic: -1})
+			cl.k.logf("view part-add %s/%d", f.Topic, id)
+			cl.bumpView()
+		}
+	case "part-del":
+		if t := cl.topics[f.Topic]; t != nil && len(t.parts) > 1 {
+			t.parts = t.parts[:len(t.parts)-1]
+			cl.k.logf("view part-del %s", f.Topic)
+			cl.bumpView()
+		}
+	case "leader-none":
+		if p := cl.part(f.Topic, f.Partition); p != nil {
+			p.leader = -1
+			cl.k.logf("view leader-none %s", p.key())
+			cl.bumpView()
+		}
+	case "broker-add":
+		if cl.brokers[f.Broker] == nil {
+			cl.mu.Lock()
+			cl.brokers[f.Broker] = &mbroker{id: f.Broker, addr: brokerAddr(f.Broker), up: true, dirtyUs: -1}
+			cl.order = append(cl.order, f.Broker)
+			cl.mu.Unlock()
+			cl.k.logf("view broker-add b%d", f.Broker)
+			cl.bumpView()
+		}
+	case "broker-del":
+		if br := cl.brokers[f.Broker]; br != nil && len(cl.order) > 1 {
+			cl.brokerDown(f.Broker, false)
+			cl.mu.Lock()
+			delete(cl.brokers, f.Broker)
+			var o []int32
+			for _, id := range cl.order {
+				if id != f.Broker {
+					o = append(o, id)
+				}
+			}
+			cl.order = o
+			cl.mu.Unlock()
+			cl.k.logf("view broker-del b%d", f.Broker)
+			cl.noteFault("broker-removed")
+			cl.bumpView()
+		}
+	case "broker-readdr":
+		if br := cl.brokers[f.Broker]; br != nil {
+			cl.mu.Lock()
+			conns := append([]*simConn(nil), br.conns...)
+			br.addr = fmt.Sprintf("b%dr%d:9092", br.id, f.N)
+			br.dirtyUs = cl.k.nowUs()
+			cl.mu.Unlock()
+			for _, c := range conns {
+				c.serverClose(false)
+			}
+			cl.k.logf("view broker-readdr b%d -> %s", br.id, br.addr)
+			cl.noteFault("broker-readdressed")
+			cl.bumpView()
 		}
 	default:
 		if cl.group != nil && cl.group.timedFault(f) {
@@ -237,11 +334,11 @@ func (cl *cluster) brokerDown(id int32, hole bool) {
 		return
 	}
 	cl.k.logf("fault broker-down b%d hole=%v", id, hole)
+	br.dirtyUs = cl.k.nowUs()
 	cl.mu.Lock()
 	br.up = false
 	br.blackhole = hole
-	conns := br.conns
-	br.conns = nil
+	conns := append([]*simConn(nil), br.conns...)
 	cl.mu.Unlock()
 	for _, c := range conns {
 		if hole {
@@ -280,6 +377,7 @@ func (cl *cluster) brokerUp(id int32) {
 		return
 	}
 	cl.k.logf("fault broker-up b%d", id)
+	br.dirtyUs = cl.k.nowUs()
 	cl.mu.Lock()
 	br.up = true
 	br.blackhole = false
@@ -338,7 +436,7 @@ func (cl *cluster) onClientFrame(c *simConn, frame []byte) {
 var onWireWrite func(c *simConn, h reqHeader, frame []byte)
 
 func (cl *cluster) arrive(c *simConn, frame []byte) {
-	if c.isDead() || !c.br.up {
+	if c.isDead() || c.closing || !c.br.up {
 		return
 	}
 	c.queue = append(c.queue, frame)
@@ -370,6 +468,15 @@ func (cl *cluster) respond(c *simConn, resp []byte, extraDelay time.Duration) {
 		if c.isDead() {
 			return
 		}
+		c.mu.Lock()
+		c.answered++
+		if len(resp) >= 8 {
+			if c.deliveredCorr == nil {
+				c.deliveredCorr = map[int32]bool{}
+			}
+			c.deliveredCorr[int32(uint32(resp[4])<<24|uint32(resp[5])<<16|uint32(resp[6])<<8|uint32(resp[7]))] = true
+		}
+		c.mu.Unlock()
 		c.deliver(resp)
 	})
 	c.busy = false
@@ -437,7 +544,7 @@ func (cl *cluster) matchRule(api string, br *mbroker, names func(topic string, p
 	var hit *cf.Fault
 	for _, rs := range cl.rules {
 		w := rs.f.When
-		if w.API != api || rs.fired {
+		if (w.API != api && w.API != "*") || rs.fired {
 			continue
 		}
 		if w.Broker != 0 && w.Broker != br.id {
@@ -450,6 +557,7 @@ func (cl *cluster) matchRule(api string, br *mbroker, names func(topic string, p
 		if rs.seen == w.Nth && hit == nil {
 			rs.fired = true
 			hit = rs.f
+			br.dirtyUs = cl.k.nowUs()
 		}
 	}
 	return hit
@@ -502,6 +610,9 @@ func (cl *cluster) handle(c *simConn, frame []byte) {
 		}
 	}
 	fault := cl.matchRule(api, br, names)
+	if cl.onRequest != nil {
+		cl.onRequest(c, h, body, fault)
+	}
 	if fault != nil {
 		switch fault.Do {
 		case "drop-before", "drop-after":
@@ -525,6 +636,67 @@ func (cl *cluster) handle(c *simConn, frame []byte) {
 	if !ok {
 		return
 	}
+	if fault != nil {
+		switch fault.Do {
+		case "wrong-corr":
+			resp = append([]byte(nil), resp...)
+			resp[7] ^= byte(1 + fault.N%200)
+			cl.noteFault("garbage-wrong-correlation-id")
+			cl.k.logf("b%d c%d %s corr=%d -> response with wrong correlation id", br.id, c.id, api, h.corr)
+			if cl.onGarbage != nil {
+				cl.onGarbage(c, h, fault.Do)
+			}
+		case "oversize":
+			resp = append([]byte(nil), resp...)
+			resp[0], resp[1], resp[2], resp[3] = 0x7f, 0xff, 0xff, 0xff
+			cl.noteFault("garbage-oversized-length")
+			cl.k.logf("b%d c%d %s corr=%d -> response with oversized length", br.id, c.id, api, h.corr)
+			if cl.onGarbage != nil {
+				cl.onGarbage(c, h, fault.Do)
+			}
+		case "truncate", "short-header", "close":
+			n := 0
+			switch fault.Do {
+			case "truncate":
+				n = 8 + fault.N%max(1, len(resp)-8)
+				if n >= len(resp) {
+					n = len(resp) - 1
+				}
+			case "short-header":
+				n = 1 + fault.N%7
+			}
+			cl.noteFault("garbage-" + fault.Do)
+			cl.k.logf("b%d c%d %s corr=%d -> %s after %d bytes", br.id, c.id, api, h.corr, fault.Do, n)
+			if cl.onGarbage != nil {
+				cl.onGarbage(c, h, fault.Do)
+			}
+			part := resp[:n]
+			at := time.Now().Add(cl.k.latency())
+			if at.Before(c.lastDeliv) {
+				at = c.lastDeliv
+			}
+			c.lastDeliv = at
+			c.closing = true
+			cl.k.after(time.Until(at), func() {
+				if n > 0 {
+					c.deliver(part)
+				}
+				c.serverClose(true)
+			})
+			return
+		case "stall":
+			// the broker stops reading: the socket buffer fills up and client writes block
+			c.mu.Lock()
+			c.stall = true
+			c.mu.Unlock()
+			cl.noteFault("stall")
+			cl.k.logf("b%d c%d %s corr=%d -> broker stalls (no response, writes block)", br.id, c.id, api, h.corr)
+			if cl.onGarbage != nil {
+				cl.onGarbage(c, h, fault.Do)
+			}
+			return
+		}
+	}
 	if fault != nil && fault.Do == "delay" {
 		delay += time.Duration(fault.Us) * time.Microsecond
 		cl.noteFault("delay")
@@ -538,7 +710,7 @@ func (cl *cluster) dispatch(c *simConn, h reqHeader, body interface{}, fault *cf
 	var resp interface{}
 	switch r := body.(type) {
 	case *sarama.MetadataRequest:
-		resp = cl.metadata(br, r, fault)
+		resp = cl.metadata(br, c, h.corr, r, fault)
 	case *sarama.InitProducerIDRequest:
 		cl.pidNext++
 		res := &sarama.InitProducerIDResponse{ProducerID: cl.pidNext, ProducerEpoch: 0}
@@ -575,7 +747,7 @@ func (cl *cluster) dispatch(c *simConn, h reqHeader, body interface{}, fault *cf
 }
 
 // metadata builds the response for the current view.
-func (cl *cluster) metadata(br *mbroker, r *sarama.MetadataRequest, fault *cf.Fault) *sarama.MetadataResponse {
+func (cl *cluster) metadata(br *mbroker, c *simConn, corr int32, r *sarama.MetadataRequest, fault *cf.Fault) *sarama.MetadataResponse {
 	m := &sarama.MetadataResponse{Version: r.Version, ControllerID: cl.controller}
 	for _, id := range cl.order {
 		b := cl.brokers[id]
@@ -606,6 +778,9 @@ func (cl *cluster) metadata(br *mbroker, r *sarama.MetadataRequest, fault *cf.Fa
 			continue
 		}
 		if t.err != 0 {
+			if len(r.Topics) == 0 && (t.err == 3 || t.err == 17) {
+				continue // a full listing does not name topics that do not exist / are invalid
+			}
 			m.AddTopic(name, sarama.KError(t.err))
 			continue
 		}
@@ -626,6 +801,9 @@ func (cl *cluster) metadata(br *mbroker, r *sarama.MetadataRequest, fault *cf.Fa
 		}
 	}
 	cl.k.logf("b%d Metadata v%d view=%d %s", br.id, r.Version, cl.view, strings.Join(desc, " "))
+	if cl.onMetadata != nil {
+		cl.onMetadata(br, c, corr, r, m)
+	}
 	return m
 }
 
